@@ -7,6 +7,7 @@ import (
 	"errors"
 
 	"github.com/olric-data/olric/internal/cluster/partitions"
+	"github.com/olric-data/olric/internal/cluster/routingtable"
 )
 
 // VerifC05_WriteQuorum: a Put is acknowledged iff at least WriteQuorum copies were stored; otherwise it fails with
@@ -46,6 +47,41 @@ func VerifC05_WriteQuorum() {
 			_, ok := vpCopy(cl.members[i], "d", "k", partitions.BACKUP)
 			vpAssert(ok, "reachable-backup-has-copy")
 		}
+	}
+	vpReach("end")
+}
+
+// VerifC05_MemberQuorum: with MemberCountQuorum and the number of members this member currently sees both chosen by
+// the solver, every attempt to open a DMap - a new name, or a name that was opened earlier while the cluster was
+// healthy - fails with the cluster-quorum error exactly when members < quorum, and then creates nothing.
+func VerifC05_MemberQuorum() {
+	cl := vpNewCluster(vpClusterConfig{members: 1, replicaCount: 1, writeQuorum: 1, readQuorum: 1, partitions: 1})
+	cl.vpSetOwners(0, []int{0}, nil)
+	s := cl.members[0].svc
+	quorum := vpRange("memberCountQuorum", 1, 5)
+	s.config.MemberCountQuorum = int32(quorum)
+	// phase 1: possibly open "x" while the quorum holds
+	opened := vpBool("openedWhileHealthy")
+	if opened {
+		s.rt.SetNumMembersEagerly(int32(quorum))
+		_, err := s.NewDMap("x")
+		vpAssert(err == nil, "open-succeeds-with-quorum")
+	}
+	// phase 2: the member now sees a solver-chosen number of members
+	members := vpRange("members", 0, 6)
+	s.rt.SetNumMembersEagerly(int32(members))
+	name := "x"
+	if vpBool("freshName") {
+		name = "y"
+	}
+	before := len(s.dmaps)
+	dm, err := s.NewDMap(name)
+	if members < quorum {
+		vpAssert(errors.Is(err, routingtable.ErrClusterQuorum), "open-below-quorum-fails-with-cluster-quorum-error")
+		vpAssert(dm == nil, "open-below-quorum-returns-no-handle")
+		vpAssert(len(s.dmaps) == before, "open-below-quorum-creates-nothing")
+	} else {
+		vpAssert(err == nil && dm != nil, "open-with-quorum-succeeds")
 	}
 	vpReach("end")
 }
